@@ -85,14 +85,65 @@ func VP_C09_nbt() {
 	vp.Cover("end")
 }
 
-type vpFailWriter struct {
+// vpCutReader is a plain io.Reader (no ReadByte) that delivers at most chunk
+// bytes per call (0 = unlimited) and never crosses the offset cut in one call.
+type vpCutReader struct {
 	b     []byte
-	limit int
+	pos   int
+	chunk int
+	cut   int
+}
+
+func (r *vpCutReader) Read(p []byte) (int, error) {
+	if len(p) == 0 {
+		return 0, nil
+	}
+	if r.pos >= len(r.b) {
+		return 0, io.EOF
+	}
+	n := len(r.b) - r.pos
+	if n > len(p) {
+		n = len(p)
+	}
+	if r.chunk > 0 && n > r.chunk {
+		n = r.chunk
+	}
+	if r.pos < r.cut && r.pos+n > r.cut {
+		n = r.cut - r.pos
+	}
+	copy(p, r.b[r.pos:r.pos+n])
+	r.pos += n
+	return n, nil
+}
+
+// vpSchedule picks a delivery schedule for a stream of n bytes: fixed chunks of
+// 1, 2, 3 or 5 bytes, or contiguous delivery with one cut at any offset.
+func vpSchedule(b []byte) *vpCutReader {
+	switch vp.Choice(5) {
+	case 0:
+		return &vpCutReader{b: b, chunk: 1}
+	case 1:
+		return &vpCutReader{b: b, chunk: 2}
+	case 2:
+		return &vpCutReader{b: b, chunk: 3}
+	case 3:
+		return &vpCutReader{b: b, chunk: 5}
+	}
+	return &vpCutReader{b: b, cut: 1 + vp.Choice(len(b)-1)}
+}
+
+// vpFailWriter accepts limit bytes and fails the write that crosses the limit;
+// sticky writers keep failing, transient ones accept everything afterwards.
+type vpFailWriter struct {
+	b         []byte
+	limit     int
+	transient bool
+	failed    bool
 }
 
 func (w *vpFailWriter) Write(p []byte) (int, error) {
 	room := w.limit - len(w.b)
-	if room >= len(p) {
+	if room >= len(p) || (w.transient && w.failed) {
 		w.b = append(w.b, p...)
 		return len(p), nil
 	}
@@ -100,6 +151,7 @@ func (w *vpFailWriter) Write(p []byte) (int, error) {
 		room = 0
 	}
 	w.b = append(w.b, p[:room]...)
+	w.failed = true
 	return room, vpErrInjected
 }
 
@@ -110,7 +162,7 @@ func VP_C09_typed() {
 	doc := append([]byte{TagCompound}, vpRefDoc(v)...)
 	vp.SizeBound(8)
 	if vp.Choice(2) == 0 {
-		r := &vpPlainReader{b: append(append([]byte{}, doc...), 0x31), chunk: 1 + vp.Choice(2)}
+		r := vpSchedule(append(append([]byte{}, doc...), 0x31))
 		d := NewDecoder(r)
 		d.NetworkFormat(true)
 		var got vpDoc
@@ -158,7 +210,176 @@ func VP_C09_failwrite_nbt() {
 		run = func(w *vpFailWriter) error { return m.MarshalNBT(w) }
 	}
 	k := vp.Choice(total)
-	w := &vpFailWriter{limit: k}
+	w := &vpFailWriter{limit: k, transient: vp.Bool()}
 	vp.Assert(run(w) != nil, "write failure is reported")
 	vp.Cover("end")
+}
+
+// vpRootValue builds one root value of every container/scalar kind with its
+// reference payload (network format: tag byte, then payload).
+func vpRootValue() (v any, doc []byte) {
+	switch vp.Choice(8) {
+	case 0:
+		a := []int32{vp.Int32(), vp.Int32(), vp.Int32()}
+		doc = append([]byte{TagIntArray}, vpBE(3, 4)...)
+		for _, x := range a {
+			doc = append(doc, vpBE(uint64(uint32(x)), 4)...)
+		}
+		return a, doc
+	case 1:
+		a := []int64{vp.Int64(), vp.Int64()}
+		doc = append([]byte{TagLongArray}, vpBE(2, 4)...)
+		for _, x := range a {
+			doc = append(doc, vpBE(uint64(x), 8)...)
+		}
+		return a, doc
+	case 2:
+		a := vp.Bytes(5)
+		doc = append([]byte{TagByteArray}, vpBE(5, 4)...)
+		return a, append(doc, a...)
+	case 3:
+		s := string(vp.Bytes(5))
+		vp.Assume(vpASCII(s))
+		return s, append([]byte{TagString}, vpStr(s)...)
+	case 4:
+		x := vp.Int64()
+		return x, append([]byte{TagLong}, vpBE(uint64(x), 8)...)
+	case 5:
+		x := vp.Int32()
+		return x, append([]byte{TagInt}, vpBE(uint64(uint32(x)), 4)...)
+	case 6:
+		x := vp.Int16()
+		return x, append([]byte{TagShort}, vpBE(uint64(uint16(x)), 2)...)
+	}
+	a := []string{string(vp.Bytes(2)), string(vp.Bytes(1))}
+	vp.Assume(vpASCII(a[0]) && vpASCII(a[1]))
+	doc = append([]byte{TagList, TagString}, vpBE(2, 4)...)
+	doc = append(doc, vpStr(a[0])...)
+	return a, append(doc, vpStr(a[1])...)
+}
+
+func vpASCII(s string) bool {
+	for i := 0; i < len(s); i++ {
+		if s[i] >= 0x80 {
+			return false
+		}
+	}
+	return true
+}
+
+// root values (no enclosing compound whose end tag would report a sticky failure
+// later): a writer failing at any offset, sticky or once, is an error.
+func VP_C09_failwrite_root() {
+	v, doc := vpRootValue()
+	var probe vpFailWriter
+	probe.limit = 1 << 20
+	e := NewEncoder(&probe)
+	e.NetworkFormat(true)
+	vp.Assert(e.Encode(v, "") == nil, "encodes")
+	vp.Assert(string(probe.b) == string(doc), "reference bytes")
+	w := &vpFailWriter{limit: vp.Choice(len(doc)), transient: vp.Bool()}
+	e = NewEncoder(w)
+	e.NetworkFormat(true)
+	vp.Assert(e.Encode(v, "") != nil, "write failure is reported")
+	vp.Cover("end")
+}
+
+// root values decoded into an `any` target and into the matching typed target
+// under every schedule: same value, same residual stream; failures reported.
+func VP_C09_root_targets() {
+	v, doc := vpRootValue()
+	typed := vp.Bool()
+	dec := func(r io.Reader) (any, error) {
+		d := NewDecoder(r)
+		d.NetworkFormat(true)
+		if !typed {
+			var got any
+			_, err := d.Decode(&got)
+			return got, err
+		}
+		switch v.(type) {
+		case []int32:
+			var got []int32
+			_, err := d.Decode(&got)
+			return got, err
+		case []int64:
+			var got []int64
+			_, err := d.Decode(&got)
+			return got, err
+		case []byte:
+			var got []byte
+			_, err := d.Decode(&got)
+			return got, err
+		case string:
+			var got string
+			_, err := d.Decode(&got)
+			return got, err
+		case int64:
+			var got int64
+			_, err := d.Decode(&got)
+			return got, err
+		case int32:
+			var got int32
+			_, err := d.Decode(&got)
+			return got, err
+		case int16:
+			var got int16
+			_, err := d.Decode(&got)
+			return got, err
+		}
+		var got []string
+		_, err := d.Decode(&got)
+		return got, err
+	}
+	if vp.Choice(2) == 0 {
+		r := vpSchedule(append(append([]byte{}, doc...), 0x31))
+		got, err := dec(r)
+		vp.Assert(err == nil, "same error-ness under fragmentation")
+		vp.Assert(r.pos == len(doc), "same residual stream under fragmentation")
+		vpSameRoot(got, v, typed, "same value under fragmentation")
+	} else {
+		_, err := dec(&vpFailByteReader{b: doc, fail: vp.Choice(len(doc)), eof: vp.Bool()})
+		vp.Assert(err != nil, "failure before the value is complete is reported")
+	}
+	vp.Cover("end")
+}
+
+func vpSameRoot(got, want any, typed bool, label string) {
+	switch w := want.(type) {
+	case []int32:
+		g, ok := got.([]int32)
+		vp.Assert(ok && len(g) == len(w), label)
+		for i := range w {
+			vp.Assert(g[i] == w[i], label)
+		}
+	case []int64:
+		g, ok := got.([]int64)
+		vp.Assert(ok && len(g) == len(w), label)
+		for i := range w {
+			vp.Assert(g[i] == w[i], label)
+		}
+	case []byte:
+		g, ok := got.([]byte)
+		vp.Assert(ok && string(g) == string(w), label)
+	case string:
+		g, ok := got.(string)
+		vp.Assert(ok && g == w, label)
+	case int64:
+		g, ok := got.(int64)
+		vp.Assert(ok && g == w, label)
+	case int32:
+		g, ok := got.(int32)
+		vp.Assert(ok && g == w, label)
+	case int16:
+		g, ok := got.(int16)
+		vp.Assert(ok && g == w, label)
+	case []string:
+		if typed {
+			g, ok := got.([]string)
+			vp.Assert(ok && len(g) == 2 && g[0] == w[0] && g[1] == w[1], label)
+		} else {
+			g, ok := got.([]any)
+			vp.Assert(ok && len(g) == 2 && g[0] == any(w[0]) && g[1] == any(w[1]), label)
+		}
+	}
 }
